@@ -33,13 +33,13 @@ CHECKS = {
          "Every arrangement of complete/incomplete/hunk-less/absent bands over small path alphabets and every hunk split (exhaustive for (B=2,P=4) and (B=3,P=3); thorough adds (B=4,P=2) and (B=3,P=4)) is written by the harness's own format writer and listed by the real code for every N; the result must equal an executable statement of the stitching rule, be strictly increasing, and finish within an operation budget; filter variants on a sample; random larger archives with removed hunks; band states include head-less directories and empty BANDHEAD files; one archive with more than 10 000 one-entry hunks per version, one with a chain of 130 interrupted versions, and listings with every read / listing failing once.",
          "Trusted: fmt06 writer/reader, oracle::stitch_model and oracle::apath_cmp as restatements of the documented rules. Termination is decided as bounded progress (operation budget).", "3 C08"),
  "C09": ("fault_enumeration", "runtime monitor: validate observed after every step of fault-free histories; every single-file damage of generated archives judged by restore-based harm oracle vs validate's report",
-         "Healthy side: full and quick validation after every archive-changing step of generated histories, and of two large archives written with default options (a combined block above the block size, a multi-block file, 300 blocks), must be silent, on both runtime flavours. Damage side: for EVERY file of generated archives x {delete, truncate 0, truncate half, garbage} and 8 bit flips per block, harm is decided by restoring every complete version and comparing with its pre-damage tree; every harmful damage must be reported by full validation (and deletions by quick validation), also with a stale GC_LOCK in the archive; a 300-block archive is validated in a process limited to 160 open files.",
+         "Healthy side: full and quick validation after every archive-changing step of generated histories (a third of them with names of exactly 255 bytes), and of two large archives written with default options (a combined block above the block size, a multi-block file, 300 blocks), must be silent, on both runtime flavours. Damage side: for EVERY file of generated archives x {delete, truncate 0, truncate half, garbage} and 8 bit flips per block, harm is decided by restoring every complete version and comparing with its pre-damage tree; every harmful damage must be reported by full validation (and deletions by quick validation), also with a stale GC_LOCK in the archive; a 300-block archive is validated in a process limited to 160 open files.",
          "Trusted: restore-and-compare as the definition of harm; 'version' restricted to complete versions.", "3 C09"),
  "C10": ("fault_enumeration", "runtime monitor: every single-file damage of generated archives run through a child process; crash/termination, containment and follow-up-backup oracles; valgrind memcheck replay of hostile-byte cases",
-         "For EVERY file of generated archives x {delete, truncate 0, truncate half, garbage} plus seeded bit flips in every file and JSON-level flips that keep hunks decodable, plus hunk damage on both sides of the index-subdirectory boundary of a 10 040-hunk version, a child process (for a quarter of the damages also one that holds and keeps using an Archive handle opened before the damage) runs versions / ls / restore of every band / validate full+quick / backup / restore; the parent decides normal termination (panic, abort, signal, operation-budget overrun), exact restoration of every entry that does not depend on the damaged file, error reporting for entries whose hunk or block became missing or undecodable or whose band's head is present but unreadable, and an exact follow-up backup after deletions and truncations. A sample of hostile-byte cases is replayed under valgrind memcheck.",
+         "For EVERY file of generated archives x {delete, truncate 0, truncate half, garbage} plus seeded bit flips in every file and JSON-level flips that keep hunks decodable, plus hunk damage on both sides of the index-subdirectory boundary of a 10 040-hunk version, a child process (for a quarter of the damages also one that holds and keeps using an Archive handle opened before the damage) runs versions / ls / restore of every band (whole, and restricted to up to four top-level directories) / validate full+quick / backup / restore; the parent decides normal termination (panic, abort, signal, operation-budget overrun), exact restoration of every entry that does not depend on the damaged file, error reporting for entries whose hunk or block became missing or undecodable or whose band's head is present but unreadable, and an exact follow-up backup after deletions and truncations. A sample of hostile-byte cases is replayed under valgrind memcheck.",
          "Trusted: E2 reader for the dependency analysis; 'hang' is decided as an operation budget (1000x fault-free), wall-clock watchdog is inconclusive; AddressSanitizer build was not possible (old rustix in the dependency tree does not build on nightly), memcheck is used instead.", "3 C10"),
  "C11": ("exploration", "runtime monitor: executable order/validity model compared with Apath on exhaustive small alphabets + emitters observed on generated trees",
-         "All pairs/triples of valid paths over two alphabets up to depth 4/3 and every string over a 13-component alphabet (exhaustive within the bound) are compared against an independent statement of the documented order and validity rule; the source walk, listings (also of versions stitched from chains of killed backups, and of a version with more than 10 000 hunks) and independently decoded hunks of generated trees must be strictly increasing under it, also for trees holding names that are not UTF-8.",
+         "All pairs/triples of valid paths over two alphabets up to depth 4/3 and every string over a 13-component alphabet (exhaustive within the bound) are compared against an independent statement of the documented order and validity rule; the source walk, listings (also of versions stitched from chains of killed backups, and of a version with more than 10 000 hunks) and independently decoded hunks of generated trees must be strictly increasing under it, also for trees holding names that are not UTF-8, and for the indexes written by first backups in which any one write (block, hunk, head, tail) was refused.",
          "Trusted: oracle::apath_key as restatement of doc/format.md; snap + serde_json to decode hunks.", "3 C11"),
  "C12": ("exploration", "runtime monitor: subtree listings for every entry and non-existent paths vs component-wise filter of the full listing; subtree restores vs full restore",
          "Generated trees with multi-byte names and siblings that extend one another; the real subtree listing is compared for every possible S with the component-wise filter of the full listing, and restore(only_subtree=S) for every directory with the same subtree of a full restore (bytes and metadata), nothing else created; also in versions with more than 10 000 index hunks and with 10 000 entries in one hunk.",
